@@ -74,6 +74,9 @@ EXPLANATION = (
     "holds is forwarded explicitly, constants only from the allow-list. "
     "R4/R5: declared keyword-only arguments, connection lookup order and "
     "the geometry call's argument order and index formula. R6: LINK.")
+EXPLANATION += (
+    " R2 also checks that get_new_context hands the Context exactly its "
+    "keyword arguments (terms; no snapshot of the arguments in force).")
 NOT_DECIDED = ["timing of the stop signal on the wire",
                "values passed positionally through *args by user code"]
 
